@@ -10,7 +10,8 @@ GLOBAL_TRUSTED = [
 ]
 
 LEMMAS = {}
-MODULES = [abnf, recv, core, url, http, app]
+NEVER_RETURNS = set()  # functions whose contract cases legitimately have no normal exit
+MODULES = [abnf, recv, core, url, app, http]
 COST = {}
 
 
